@@ -128,6 +128,19 @@ inductive Step : State → Label → State → Prop where
       Step s .wExit { s with panicked := true, watch := .returned, connDone := true }
   | wExit (s : State) : s.watch = .exiting → s.queueClosed = false →
       Step s .wExit { s with queueClosed := true, watch := .returned, connDone := true }
+  | kaStart (s : State) : s.ka = .off → Step s .kaStart { s with ka := .idle }
+  | kaSend (s : State) (i : Nat) : s.ka = .idle → (s.callers i).pc = .idle → (s.callers i).kind = .submit →
+      Step s (.kaSend i) { s with ka := .submitting i }
+  | kaSubmitOk (s : State) (i : Nat) (p : InPdu) : s.ka = .submitting i → (s.callers i).pc = .done (.resp p) →
+      Step s .kaSubmitDone { s with ka := .select }
+  | kaSubmitFail (s : State) (i : Nat) (r : Result) : s.ka = .submitting i → (s.callers i).pc = .done r → (∀ p, r ≠ .resp p) →
+      Step s .kaSubmitDone { s with ka := .failed, tickerStopped := true }
+  | kaClose (s : State) (j : Nat) : s.ka = .failed → (s.callers j).pc = .idle → (s.callers j).kind = .close →
+      Step s (.kaClose j) { s with ka := .closing j }
+  | kaCloseDone (s : State) (j : Nat) : s.ka = .closing j → (s.callers j).pc.isDone = true →
+      Step s .kaCloseDone { s with ka := .select }
+  | kaExit (s : State) : s.ka = .select → s.connDone = true → Step s .kaExit { s with ka := .returned }
+  | kaTick (s : State) : s.ka = .select → s.tickerStopped = false → Step s .kaTick { s with ka := .idle }
   | peerAnswer (s : State) (i : Nat) : (OutFrame.req i (s.callers i).seq) ∈ s.wire → (s.callers i).answered = false →
       Step s (.peerAnswer i) { s with callers := upd s.callers i { s.callers i with answered := true }, inbound := s.inbound ++ [.ok ⟨(s.callers i).seq, .ans i⟩] }
   | peerUnsol (s : State) (seq : Int) (k : Nat) : Step s (.peerUnsol seq k) { s with inbound := s.inbound ++ [.ok ⟨seq, .peer k⟩] }
@@ -300,6 +313,50 @@ theorem step_sound (s s' : State) (l : Label) (h : step s l = some s') : Step s 
       by_cases hq : s.queueClosed = true
       · rw [if_pos hq] at h; subst h; exact Step.wExitPanic s hw hq
       · rw [if_neg hq] at h; subst h; exact Step.wExit s hw (by simpa using hq)
+    · cases h
+  | kaStart =>
+    simp only [step] at h
+    split at h
+    · next hk => simp only [Option.some.injEq] at h; subst h; exact Step.kaStart s hk
+    · cases h
+  | kaSend i =>
+    simp only [step] at h
+    split at h
+    · next hg => simp only [Option.some.injEq] at h; subst h; exact Step.kaSend s i hg.1 hg.2.1 hg.2.2
+    · cases h
+  | kaSubmitDone =>
+    simp only [step] at h
+    split at h
+    · next i hk =>
+      split at h
+      · next p hp => simp only [Option.some.injEq] at h; subst h; exact Step.kaSubmitOk s i p hk hp
+      · next r hnr hp =>
+        simp only [Option.some.injEq] at h; subst h
+        exact Step.kaSubmitFail s i r hk hp (by intro p hr; exact hnr p hr)
+      · cases h
+    · cases h
+  | kaClose j =>
+    simp only [step] at h
+    split at h
+    · next hg => simp only [Option.some.injEq] at h; subst h; exact Step.kaClose s j hg.1 hg.2.1 hg.2.2
+    · cases h
+  | kaCloseDone =>
+    simp only [step] at h
+    split at h
+    · next j hk =>
+      split at h
+      · next hd => simp only [Option.some.injEq] at h; subst h; exact Step.kaCloseDone s j hk hd
+      · cases h
+    · cases h
+  | kaExit =>
+    simp only [step] at h
+    split at h
+    · next hg => simp only [Option.some.injEq] at h; subst h; exact Step.kaExit s hg.1 hg.2
+    · cases h
+  | kaTick =>
+    simp only [step] at h
+    split at h
+    · next hg => simp only [Option.some.injEq] at h; subst h; exact Step.kaTick s hg.1 hg.2
     · cases h
   | peerAnswer i =>
     simp only [step] at h
@@ -796,5 +853,36 @@ theorem nack_inv (tbl) (s : State) (h : Reach tbl s) : NackInv s := by
   induction h with
   | init => intro _; simp [init, nackTail, badSeqs]
   | step l hr ha hs ih => exact nack_step _ _ l ih (step_sound _ _ _ hs)
+
+/-! ## the keep-alive goroutine -/
+
+/-- the keep-alive goroutine: once its ticker is stopped (a keep-alive failed) it can only be waiting with the connection
+context already done — so its `select` has a ready case and the loop returns -/
+structure InvKa (tbl : Nat → Caller) (s : State) : Prop where
+  running : (s.ka = .off ∨ s.ka = .idle ∨ ∃ i, s.ka = .submitting i) → s.tickerStopped = false
+  closingKind : ∀ j, s.ka = .closing j → (tbl j).kind = .close
+  stoppedDone : s.ka = .select → s.tickerStopped = true → s.connDone = true
+
+set_option maxHeartbeats 2000000 in
+theorem invKa_step (tbl) (s s' : State) (l : Label) (h1 : Inv1 tbl s) (h3 : Inv3 tbl s) (hi : InvKa tbl s) (hs : Step s l s') :
+    InvKa tbl s' := by
+  obtain ⟨hr, hk, hsd⟩ := hi
+  have hst := h1.static
+  have hcd := h3.closeDone
+  cases hs <;> (try simp only [setPc]) <;> constructor <;> first
+    | exact hr
+    | exact hk
+    | exact hsd
+    | grind [upd, updI, Pc.isDone]
+
+theorem invKa_init (tbl) : InvKa tbl (init tbl) := by
+  constructor <;> simp [init]
+
+theorem invKa (tbl) (hd : Distinct tbl) (hf : Fresh tbl) (s : State) (h : Reach tbl s) : InvKa tbl s := by
+  induction h with
+  | init => exact invKa_init tbl
+  | step l hr ha hs ih =>
+    obtain ⟨i1, _, i3, _⟩ := inv_all tbl hd hf _ hr
+    exact invKa_step tbl _ _ l i1 i3 ih (step_sound _ _ _ hs)
 
 end Smpp.Conn
